@@ -51,6 +51,7 @@ type Val struct {
 	btyp     types.Type
 	fn       *ssa.Function
 	bindings []*Val
+	mapDistinct bool // the map held in this location keeps one value object per key (declared field invariant)
 	mapNonNil bool  // the map held in this location stores only non-nil values (declared field invariant)
 	guard    string // lock identity that must be held to use this location / map (guardedby)
 }
@@ -101,6 +102,7 @@ type Obligation struct {
 	Ms     int64
 	Model  string
 	Canary bool
+	SpecFn string // synthesised Go function of the clause (ensures obligations): used by the replay
 	Short  bool // short solver budget (obligations recorded as known findings)
 }
 
@@ -132,6 +134,8 @@ type Unit struct {
 	globalInvsUsed []string
 	alloc0      string
 	locksUsed   bool
+	distinctHeaps map[string]string // map-value heaps of "distinct" registries -> key sort
+	pendingMapWF  [][2]string       // heap versions (term, key sort) whose stored pointers still need the older-than-alloc fact
 }
 
 func (u *Unit) fresh(prefix string) string {
@@ -200,6 +204,11 @@ func (u *Unit) heapGet(st *State, name, sort string) string {
 	t := u.declare(name+"@0", sort)
 	u.initHeap[name] = t
 	st.h[name] = t
+	if ks, ok := u.distinctHeaps[name]; ok && u.alloc0 != "" {
+		m, k := u.fresh("m"), u.fresh("k")
+		u.assume("true", fmt.Sprintf("(forall ((%s Int) (%s %s)) (! (< (select (select %s %s) %s) %s) :pattern ((select (select %s %s) %s))))",
+			m, k, ks, t, m, k, u.alloc0, t, m, k))
+	}
 	return t
 }
 
@@ -845,12 +854,50 @@ func (fr *frame) ptrTerm(v *Val, st *State) string {
 		// in specs: address identity of interior locations is abstracted by an uninterpreted function
 		return "(- 1)"
 	}
+	if lv.kind == lvHeap && stableInterior(lv) {
+		// &x.f where f is the only by-value part of x's type with that type: the address is identified with x's own
+		// reference in the heap of f's type (injective, and as old or new as x itself); the contents are a snapshot.
+		hl := &LVal{kind: lvHeap, name: "H:" + u.sorts.typeKey(lv.typ), ref: lv.ref, rootT: lv.typ, typ: lv.typ}
+		u.write(st, hl, u.read(st, lv))
+		u.abstract("interior-pointer-snapshot")
+		v.t = lv.ref
+		return v.t
+	}
 	ref := fr.allocRef(st)
 	hl := &LVal{kind: lvHeap, name: "H:" + u.sorts.typeKey(lv.typ), ref: ref, rootT: lv.typ, typ: lv.typ}
 	u.write(st, hl, u.read(st, lv))
 	u.abstract("interior-pointer-materialised")
 	v.t = ref
 	return ref
+}
+
+// stableInterior: the path consists of struct fields only and the addressed type occurs exactly once among the
+// by-value parts of the root type.
+func stableInterior(lv *LVal) bool {
+	for _, p := range lv.path {
+		if p.field < 0 {
+			return false
+		}
+	}
+	n := 0
+	var count func(t types.Type, depth int)
+	count = func(t types.Type, depth int) {
+		if depth > 6 {
+			n += 2
+			return
+		}
+		if st, ok := t.Underlying().(*types.Struct); ok {
+			for i := 0; i < st.NumFields(); i++ {
+				ft := st.Field(i).Type()
+				if types.Identical(ft, lv.typ) {
+					n++
+				}
+				count(ft, depth+1)
+			}
+		}
+	}
+	count(lv.rootT, 0)
+	return n == 1
 }
 
 func (fr *frame) allocRef(st *State) string {
